@@ -19,12 +19,12 @@ theorem new_ok (A : View α) (N : Nat)  : new A N = .ok (s0 A N) := by
 
 @[simp] def abs (A : View α) (s : State α A.σ) : A.σ × RsiState α := (s.view, { avgGain := s.avg_gain, avgLoss := s.avg_loss, oldRef := s.old_ref, lastVal := s.last_val, q := s.q_vals, out := s.out })
 
-theorem upd_eq (A : View α) (s : State α A.σ) (x : α)  :
+theorem upd_eq (A : View α)  (s : State α A.σ) (x : α)  :
     (update A s x).map (abs A) = (wrap A (rsiCore s.window_len)).upd (abs A s) x := by
   simp only [update, wrap, mapV, binop, rsiCore, abs]; gen_tie
 theorem upd_cfg (A : View α) (s s' : State α A.σ) (x : α) : update A s x = .ok s' → s'.window_len = s.window_len := by
   simp only [update, rsiCore]; gen_tie
-theorem last_eq (A : View α) (s : State α A.σ)  : last A s = (wrap A (rsiCore s.window_len)).last (abs A s) := by
+theorem last_eq (A : View α)  (s : State α A.σ)  : last A s = (wrap A (rsiCore s.window_len)).last (abs A s) := by
   simp only [last, wrap, mapV, binop, rsiCore, abs]; gen_tie
 
 def sim (A : View α) (N : Nat)  : Sim (mkView (s0 A N) (update A) (last A)) (wrap A (rsiCore N)) where
